@@ -631,8 +631,18 @@ func runWitness(ld *Loader, verif string, wd WitnessDef, dir string, tier string
 	cmd.Dir = p.Dir
 	cmd.Env = append(os.Environ(), "GOFLAGS=-mod=mod", "GOPROXY=off", "GOSUMDB=off", "GOTOOLCHAIN=local", "VERIF_TIER="+tier)
 	cmd.Env = append(cmd.Env, wd.Env...)
-	out, _ := cmd.CombinedOutput()
+	out, runErr := cmd.CombinedOutput()
 	cases := map[string]string{}
+	if runErr != nil {
+		// the witness tests report failing cases on stdout and pass; a test binary
+		// that fails (t.Fatal of the harness, a panic outside a case, a build error,
+		// the timeout) has not run all of its cases: that must not look like success
+		tail := strings.TrimSpace(string(out))
+		if len(tail) > 600 {
+			tail = tail[len(tail)-600:]
+		}
+		cases["harness-did-not-complete"] = "FAIL the witness test did not run to completion (" + runErr.Error() + "): " + strings.ReplaceAll(tail, "\n", " | ")
+	}
 	for _, l := range strings.Split(string(out), "\n") {
 		if i := strings.Index(l, "GOVC-WITNESS-CASE "); i >= 0 {
 			f := strings.SplitN(strings.TrimSpace(l[i+len("GOVC-WITNESS-CASE "):]), " ", 2)
